@@ -37,7 +37,7 @@ Bad == << <<"foo">>, <<"2d">>, <<"then">>, <<"loop">>, <<"]">>, <<";">>, <<"#)">
 Trl == << <<>>, <<"2", "3">>, <<":", "g", ";">>, <<"then">> >>
 Prb == << <<<<"4">>>>, <<<<"depth">>>>, <<<<"2", "var", "x", "x">>>>, <<<<":", "f", "1", ";", "f">>>>,
           <<<<"1", "true", "if", "2", "then">>>>, <<<<"[", "1", "]">>>>, <<<<"#(", "1", "#)">>>>, <<<<"v">>>>, <<<<"g">>>>,
-          <<<<"q">>>>, <<<<"h">>>>, <<<<"2", "0", "do", "I", "loop">>>>,
+          <<<<"q">>>>, <<<<"h">>>>, <<<<"2", "0", "do", "I", "loop">>>>, <<<<"I">>>>, <<<<"2", "0", "do", "J", "loop">>>>,
           <<<<"4">>, <<"depth">>>>, <<<<"1", "if">>, <<"2", "var", "x", "x">>>>, <<<<":", "f", "1", ";">>, <<"f", "f">>>>,
           <<<<"foo">>, <<"4">>>> >>
 \* run-time failing middle sources (well-formed; the failure happens when the code runs)
